@@ -10,10 +10,15 @@ NOT decided: which values count as lacked, conversion of source values to the
 destination dtype, normalisation used in the text comparisons.
 """
 import ast
+import re
 
 from .. import analysis
-from ..astutil import calls_in, call_name, where
+from ..astutil import calls_in, call_name, where, atoms_of, is_selection_of
+from ..cfg import build_cfg
+from ..dataflow import private_closure
+from ..logic import known, entails, reach_avoiding
 from ..model import AnalysisError, unparse, walk_no_nested
+from ..symtext import Expander, effect_calls
 from .rules_merge import pure_footprint, strict_forwarded, merge_adds_clones
 
 DECIDED = [
@@ -36,19 +41,34 @@ def _first_arg_is(call, name):
     return call.args and unparse(call.args[0]) == name
 
 
-def _attr_pair_tests(func, self_name, other_name):
-    """attributes X for which some `if` mentions both self.X and other.X and raises in its body (transitively)."""
+def _xatoms(g, node, x):
+    out = []
+    for test, pol, br in g.dominating_conditions(node):
+        if pol in ("true", "false"):
+            for t, p in atoms_of(test, pol == "true", lambda e, br=br: x.text(e, br)):
+                out.append((t, p, br))
+    return out
+
+
+def _attr_pair_tests(prog, func, strict_param=None):
+    """attributes X such that some raise of func - or of a private helper it calls with (self, <source>) - is reachable only
+    through a condition whose expanded text mentions both <self>.X and <source>.X."""
     out = set()
-    for n in walk_no_nested(func.node):
-        if isinstance(n, ast.If):
-            txt = unparse(n.test)
-            has_raise = any(isinstance(m, ast.Raise) for m in ast.walk(n))
-            if not has_raise:
+    for h in private_closure(func):
+        if len(h.params) < 2 and h is not func:
+            continue
+        g = build_cfg(h)
+        x = Expander(h, g)
+        me = h.params[0]
+        others = [p for p in h.params[1:]]
+        for n in g.nodes:
+            if n.kind != "raise":
                 continue
-            for m in ast.walk(n.test):
-                if isinstance(m, ast.Attribute) and isinstance(m.value, ast.Name) and m.value.id == self_name:
-                    if "%s.%s" % (other_name, m.attr) in txt:
-                        out.add(m.attr)
+            txt = " ; ".join(t for t, p, _ in _xatoms(g, n, x))
+            for m in re.finditer(r"(?<![\w.])%s\.(\w+)" % re.escape(me), txt):
+                a = m.group(1)
+                if any(re.search(r"(?<![\w.])%s\.%s\b" % (re.escape(o), re.escape(a)), txt) for o in others):
+                    out.add(a)
     return out
 
 
@@ -108,32 +128,47 @@ def run(prog, rep):
     mc = prog.func("section.BaseSection.merge_check")
     rep.saw_function(mc)
     me, src = mc.params[0], mc.params[1]
-    loops = [n for n in walk_no_nested(mc.node) if isinstance(n, ast.For)]
-    rep.check(len(loops) == 1 and unparse(loops[0].iter) == src, "SIB-2", "Section.merge_check iterates the source", "for obj in %s" % src,
+    g = build_cfg(mc)
+    x = Expander(mc, g)
+    loops = [n for n in g.nodes if n.kind == "for" and x.text(n.ast.iter, n) == src]
+    rep.check(len(loops) == 1, "SIB-2", "Section.merge_check iterates the source", "for obj in %s" % src,
               "merge_check does not iterate the source Section once", mc.where, witness="conflicts below the top level are not found")
     for lp in loops:
-        escapes = [n for n in ast.walk(lp) if isinstance(n, (ast.Return, ast.Break, ast.Continue))]
+        child = "EACH(%s)" % src
+        mine = "%s.contains(%s)" % (me, child)
+        escapes = [n for n in ast.walk(lp.ast) if isinstance(n, (ast.Return, ast.Break))]
         rep.check(not escapes, "SIB-2", "Section.merge_check loop has no early exit", "ok",
                   "the checking loop leaves early (%s): later siblings are never checked although merge handles them"
                   % ", ".join(type(e).__name__.lower() for e in escapes), where(mc, escapes[0]) if escapes else mc.where,
                   witness="strict merge where a source-only child precedes the conflicting child: ValueError after partial merge")
-        v = unparse(lp.target)
-        sel = [n for n in lp.body if isinstance(n, ast.Assign) and isinstance(n.value, ast.Call)
-               and call_name(n.value) == "%s.contains" % me and _first_arg_is(n.value, v)]
-        rep.check(len(sel) == 1, "SIB-2", "Section.merge_check selects with self.contains(obj)", "ok",
-                  "merge_check does not select the counterpart with self.contains(<child>) like merge does", where(mc, lp))
-        rec = [c for c in calls_in(lp) if isinstance(c.func, ast.Attribute) and c.func.attr == "merge_check"]
-        good = len(rec) == 1 and _first_arg_is(rec[0], v) and sel and unparse(rec[0].func.value) == unparse(sel[0].targets[0])
-        rep.check(good, "SIB-2", "Section.merge_check recurses into the counterpart", "mine.merge_check(obj, strict)",
-                  "merge_check does not recurse into the selected counterpart with the child", where(mc, lp),
+        recs = [e for e in effect_calls(prog, mc, lambda c: isinstance(c.func, ast.Attribute) and c.func.attr == "merge_check")
+                if g.dominates(lp, e.node) and e.node.id != lp.id]
+        good = len(recs) == 1 and unparse(recs[0].call.func.value) == mine and [unparse(a0) for a0 in recs[0].call.args][:1] == [child]
+        rep.check(good, "SIB-2", "Section.merge_check recurses into the counterpart", "self.contains(obj).merge_check(obj, strict)",
+                  "merge_check does not recurse into self.contains(<child>) with the child: %s" % [unparse(e.call)[:80] for e in recs], where(mc, lp.ast),
                   witness="a conflict two levels down raises after the first level was merged")
         if good:
-            node_if = [n for n in lp.body if isinstance(n, ast.If) and rec[0] in list(ast.walk(n))]
-            t = unparse(node_if[0].test) if node_if else ""
-            mine = unparse(sel[0].targets[0])
-            rep.check(t in ("%s is not None" % mine, mine), "SIB-2", "recursion guarded only by `mine is not None`", t,
-                      "the recursive check is guarded by `%s`" % t, where(mc, lp))
-    sec_tested = _attr_pair_tests(mc, me, src)
+            rn = recs[0].node
+
+            def clm(leaf, br, x=x, mine=mine):
+                t = x.text(leaf, br)
+                if t == "%s is None" % mine:
+                    return "NONE"
+                if t == mine:
+                    return "SOME"
+                return None
+
+            def edge_ok(s0, kind, dst, rn=rn):
+                if dst.id == rn.id:
+                    return True
+                return s0.kind == "branch" and kind in ("true", "false") and \
+                    entails(s0.ast.test, kind == "true", lambda lf, s0=s0: clm(lf, s0), lambda a0: a0["NONE"] or not a0["SOME"], ["NONE", "SOME"])
+            body_entry = [m for k, m in lp.succ if k == "iter"]
+            skipped = any(reach_avoiding(g, m, lp, edge_ok, skip_kinds=("exc",)) for m in body_entry if m.id != rn.id)
+            rep.check(not skipped, "SIB-2", "recursion guarded only by `mine is not None`", "every iteration that skips the recursion knows there is no counterpart",
+                      "an iteration of the checking loop can skip the recursive check although a counterpart exists", where(mc, lp.ast),
+                      witness="strict merge: a conflict in a child that has a counterpart is not found before merging starts")
+    sec_tested = _attr_pair_tests(prog, mc)
     rep.check({"definition", "reference"} <= sec_tested, "SIB-2", "Section.merge_check tests definition and reference", str(sorted(sec_tested)),
               "Section.merge_check no longer tests %s" % sorted({"definition", "reference"} - sec_tested), mc.where,
               witness="strict merge of Sections with conflicting definition/reference succeeds")
@@ -149,19 +184,19 @@ def run(prog, rep):
     rep.check(copied == set(PROP_COPIED), "SIB-2", "Property.merge copies the documented attributes", str(sorted(copied)),
               "Property.merge copies %s, documented: %s" % (sorted(copied), sorted(PROP_COPIED)), pm.where,
               witness="an unset definition/reference/unit/uncertainty/value_origin is not filled from the source")
-    tested = _attr_pair_tests(pc, pc.params[0], pc.params[1])
+    tested = _attr_pair_tests(prog, pc, strict_param="strict")
     need = copied | {"dtype"}
     rep.check(need <= tested, "SIB-2", "Property.merge_check tests every copied attribute + dtype", str(sorted(tested)),
               "Property.merge_check does not test %s under strict although merge handles them" % sorted(need - tested), pc.where,
               witness="strict merge with conflicting %s does not raise" % sorted(need - tested))
-    # the strict tests come after `if not strict: return`, the value test before it
-    g = S.cfg(pc)
-    ret = [n for n in g.nodes if n.kind == "branch" and unparse(n.ast.test) in ("not strict", "strict")]
-    rep.check(len(ret) == 1, "SIB-2", "Property.merge_check separates strict tests with one `if not strict`", "ok",
-              "expected exactly one strict switch in Property.merge_check", pc.where)
-    vt = [n for n in g.nodes if n.kind == "branch" and "_validate_values" in unparse(n.ast.test)]
-    rep.check(len(vt) == 1 and ret and g.dominates(vt[0], ret[0]), "SIB-2", "value convertibility is checked regardless of strict", "ok",
-              "the value convertibility test does not precede the strict switch", pc.where,
+    # the value convertibility refusal is reachable whatever `strict` is
+    pg = build_cfg(pc)
+    px = Expander(pc, pg)
+    vt = [n for n in pg.nodes if n.kind == "raise" and any("_validate_values(" in t and not p for t, p in
+                                                           [(tt, pp) for tt, pp, _ in _xatoms(pg, n, px)])]
+    indep = bool(vt) and all(not any(t == "strict" for t, p, _ in _xatoms(pg, n, px)) for n in vt)
+    rep.check(indep, "SIB-2", "value convertibility is checked regardless of strict", "ok",
+              "the value convertibility refusal of Property.merge_check depends on `strict` (or vanished)", pc.where,
               witness="non-strict merge with unconvertible source values raises after attributes were filled")
 
     # ---------------------------------------------------------------- FILL-1
@@ -171,28 +206,31 @@ def run(prog, rep):
     for qn in ("section.BaseSection.merge", "property.BaseProperty.merge"):
         f = prog.func(qn)
         me, src = f.params[0], f.params[1]
-        for n in walk_no_nested(f.node):
-            if isinstance(n, ast.If):
-                for st in n.body:
-                    if isinstance(st, ast.Assign) and len(st.targets) == 1 and isinstance(st.targets[0], ast.Attribute) \
-                            and unparse(st.targets[0].value) == me and isinstance(st.value, ast.Attribute) \
-                            and unparse(st.value.value) == src:
-                        x = st.targets[0].attr
-                        n_fill += 1
-                        want = "%s.%s is None and %s.%s is not None" % (me, x, src, x)
-                        atoms = set(unparse(v) for v in n.test.values) if isinstance(n.test, ast.BoolOp) and \
-                            isinstance(n.test.op, ast.And) else set([unparse(n.test)])
-                        good = atoms == set(want.split(" and ")) and st.value.attr == x and not n.orelse
-                        rep.check(good, "FILL-1", "%s: fill %s" % (f.short, x), want,
-                                  "attribute %s is copied under `%s` (expected `%s`) from %s" % (x, unparse(n.test), want, unparse(st.value)),
-                                  where(f, n), witness="a set %s of the destination (e.g. a falsy but set value such as uncertainty 0) is overwritten, "
-                                  "or an unset one is not filled" % x)
-        # no unguarded attribute copy
-        for st in f.node.body:
-            if isinstance(st, ast.Assign) and isinstance(st.targets[0], ast.Attribute) and unparse(st.targets[0].value) == me \
-                    and isinstance(st.value, ast.Attribute) and unparse(st.value.value) == src:
-                rep.fail("FILL-1", "%s|unguarded|%s" % (f.short, st.targets[0].attr),
-                         "attribute %s is copied unconditionally" % st.targets[0].attr, where(f, st))
+        g = build_cfg(f)
+        x = Expander(f, g)
+        for n in g.nodes:
+            st = n.ast
+            if not (n.kind == "stmt" and isinstance(st, ast.Assign) and len(st.targets) == 1 and isinstance(st.targets[0], ast.Attribute)
+                    and unparse(st.targets[0].value) == me):
+                continue
+            vt = x.text(st.value, n)
+            if not vt.startswith("%s." % src) or "(" in vt:
+                continue
+            attr = st.targets[0].attr
+            n_fill += 1
+
+            def clf(leaf, br, x=x, me=me, src=src, attr=attr):
+                t = x.text(leaf, br)
+                if t == "%s.%s is None" % (me, attr):
+                    return "MINE_UNSET"
+                if t == "%s.%s is None" % (src, attr):
+                    return "THEIRS_UNSET"
+                return None
+            good = vt == "%s.%s" % (src, attr) and known(g, n, clf, lambda a0: a0["MINE_UNSET"] and not a0["THEIRS_UNSET"], ["MINE_UNSET", "THEIRS_UNSET"], with_node=True)
+            rep.check(good, "FILL-1", "%s: fill %s" % (f.short, attr), "%s.%s is None and %s.%s is not None" % (me, attr, src, attr),
+                      "attribute %s is copied from %s on a path that does not know (%s.%s is None and %s.%s is not None)" % (attr, vt, me, attr, src, attr),
+                      where(f, st), witness="a set %s of the destination (e.g. a falsy but set value such as uncertainty 0) is overwritten, "
+                      "or an unset one is not filled" % attr)
     rep.floor("FILL-1", n_fill, 7, "guarded attribute fills")
 
     # ------------------------------------------------------------ shared rules
@@ -223,13 +261,8 @@ def run(prog, rep):
     rep.rule("VAL-1", "Property.merge extends with a selection of other.values; Property.merge_check validates "
                       "_convert_value_input(source.values) with the destination's _validate_values")
     ext = [c for c in calls_in(pm.node) if call_name(c) == "%s.extend" % pm.params[0]]
-    good = len(ext) == 1 and isinstance(ext[0].args[0], ast.Name)
-    src_ok = False
-    if good:
-        from ..astutil import local_assignments
-        defs = local_assignments(pm.node, ext[0].args[0].id)
-        src_ok = len(defs) == 1 and isinstance(defs[0], ast.ListComp) and \
-            unparse(defs[0].generators[0].iter) == "%s.values" % pm.params[1] and unparse(defs[0].elt) == unparse(defs[0].generators[0].target)
+    good = len(ext) == 1 and bool(ext[0].args)
+    src_ok = good and is_selection_of(pm.node, ext[0].args[0], "%s.values" % pm.params[1])
     rep.check(good and src_ok, "VAL-1", "Property.merge extends with source values", "[v for v in other.values if ...]",
               "Property.merge does not extend with a plain selection of other.values", pm.where,
               witness="merged Property gains values the source does not have / misses some")
